@@ -19,8 +19,14 @@ def NOTIF(c, s): return ('notif', c, s)
 def msg_to_val(m): return input_to_val(('recv', m))[1]
 def msg_to_coq(m): return input_to_coq(('recv', m))[len('(Recv '):-1]
 
-def item_to_val(it): return [0, msg_to_val(it[1])] if it[0] == 'msg' else [1]
-def item_to_coq(it): return '(IMsg %s)' % msg_to_coq(it[1]) if it[0] == 'msg' else 'ILoop'
+def item_to_val(it):
+    if it[0] == 'msg': return [0, msg_to_val(it[1])]
+    if it[0] == 'loop': return [1]
+    return [2, it[1], it[2], it[3]]          # ('bad', code, sub, hold): a message the codec rejects
+def item_to_coq(it):
+    if it[0] == 'msg': return '(IMsg %s)' % msg_to_coq(it[1])
+    if it[0] == 'loop': return 'ILoop'
+    return '(IParseErr %s %s)' % (cN(it[1]), cN(it[2]))
 
 def cr_to_val(cr):
     return {'admin': [0], 'silent': [2]}.get(cr[0]) or [1, cr[1], cr[2]]
@@ -61,7 +67,7 @@ class Prop:
     props_file = 'Props/C08.v'
     required_theorems = ['negotiated_is_min', 'zero_hold_disables_timers', 'zero_never_expires',
                          'hold_deadline_follows_reception', 'expiry_only_after_silence', 'expiry_when_silent',
-                         'keepalive_every_third', 'sleep0_driver_refuted', 'as_loop_drop_refuted']
+                         'keepalive_every_third', 'sleep0_driver_refuted', 'as_loop_drop_refuted', 'raw_local_hold_refuted']
     correspondence_name = ('Model/Timers.v run_case vs daemon/src/event/mod.rs PeerSession::{apply_outputs, run_select, rx_msg, '
                            'flush_tx} + ConnArbiter::process (harness/daemon/event_hx.rs verif_timer_cases)')
     rule = ('cases = (local id/AS/hold/capabilities, expected AS, role, timed event sequence: ticks, message arrivals, FIN, close requests, '
@@ -73,7 +79,7 @@ class Prop:
         'the prologue of session_loop (Connected through the arbiter, apply_outputs, Step dropped) is repeated in the harness; session_loop/run themselves (NOTIFICATION write, unregister, apply_disconnect) are not driven',
         'messages are abstracted to what fsm.rs inspects; UPDATE is End-of-RIB except the AS-loop announcement; rx_update (prefix limit Cease), the peer-event arm of run_select, write errors in flush_tx and a dropped close sender are not modelled',
     ]
-    assumptions = ['hold times are 0 or 3..65535 on both sides (OPEN parsing and the gRPC API enforce it; the config-file path does not)',
+    assumptions = ['the remote hold time is 0 or 3..65535 (OPEN parsing rejects 1 and 2 with NOTIFICATION 2/6: exercised as IParseErr); the local one is any number the configuration can hold, negotiated as advertised (16 bits, 1 and 2 as 0)',
                    'one connection task per role at a time (accept_connection rejects a second connection of the same direction)']
 
     # ---- rendering
@@ -106,7 +112,7 @@ class Prop:
         def fixev(e):
             e = list(e)
             if e[0] == 'arrive':
-                return ('arrive', [('msg', fixmsg(it[1])) if it[0] == 'msg' else ('loop',) for it in e[1]])
+                return ('arrive', [('msg', fixmsg(it[1])) if it[0] == 'msg' else tuple(it) for it in e[1]])
             if e[0] == 'close':
                 return ('close', tuple(e[1]))
             if e[0] == 'other':
@@ -140,28 +146,40 @@ class Prop:
 
     def gen_cases(self, rng, tier):
         cases = []
-        def add(cfg, evs):
-            c = dict(cfg); c['evs'] = list(evs); cases.append(c)
-        holds = [0, 3, 9, 90, 65535]
+        def add(cls, cfg, evs):
+            c = dict(cfg); c['evs'] = list(evs); c['cls'] = cls; cases.append(c)
+        base_holds = [0, 3, 9, 90, 65535]
+        pairs = [(a, b) for a in base_holds for b in base_holds]
+        # keepalive = hold / 3 rounding: 3,4,5 -> 1; 6,7,8 -> 2; 65534/65535 -> 21844/21845
+        for x in (4, 5, 6, 7, 8, 65534):
+            pairs += [(x, 65535), (65535, x)]
         # 1. the OPEN exchange for every pair of hold times, then silence / traffic
-        for lh in holds:
-            for rh in holds:
-                for role in (A, Pv):
-                    cfg = self.base(lh, role)
-                    h = min(lh, rh)
-                    add(cfg, [ARR(OPEN(rh)), SEL, ARR(KA), SEL, SEL, TICK(1), SEL])
-                    add(cfg, [ARR(OPEN(rh), KA), SEL, TICK(max(h, 1) - 1), SEL, TICK(1), SEL, SEL])
-                    add(cfg, [ARR(OPEN(rh), KA), SEL, TICK(h // 3), SEL, SEL, ARR(UPD), TICK(h // 3), SEL, SEL, TICK(h), SEL, SEL])
-                    add(cfg, [ARR(OPEN(rh)), SEL, TICK(239), SEL, TICK(1), SEL, SEL])
-                    add(cfg, [TICK(239), SEL, TICK(1), SEL, SEL])
-                    add(cfg, [ARR(OPEN(rh), KA), SEL, ('pending',), SEL, TICK(h // 3), SEL, ('pending',), SEL, SEL])
-                    # an UPDATE sent restarts the keepalive interval (Established only)
-                    add(cfg, [ARR(OPEN(rh), KA), SEL, TICK(1), ('pending',), SEL, TICK(max(h // 3, 1) - 1), SEL, TICK(1), SEL, SEL])
-                    add(cfg, [ARR(OPEN(rh)), SEL, TICK(1), ('pending',), SEL, ARR(KA), TICK(1), SEL, TICK(1), ('pending',), SEL])
-        # 2. "... and by nothing else": on an Established session with a hold time in force, everything
-        # that is not a received KEEPALIVE / UPDATE happens part-way through the hold interval (a received
-        # ROUTE-REFRESH, an UPDATE or a keepalive being sent, a stale event of the other connection), then
-        # silence up to the original deadline: the session must go down at that deadline
+        for lh, rh in pairs:
+            for role in (A, Pv):
+                cfg = self.base(lh, role)
+                h = min(lh, rh)
+                ka = h // 3
+                add('pair_open_then_ka', cfg, [ARR(OPEN(rh)), SEL, ARR(KA), SEL, SEL, TICK(1), SEL])
+                add('pair_silence_to_deadline', cfg, [ARR(OPEN(rh), KA), SEL, TICK(max(h, 1) - 1), SEL, TICK(1), SEL, SEL])
+                add('pair_update_rearms', cfg, [ARR(OPEN(rh), KA), SEL, TICK(ka), SEL, SEL, ARR(UPD), TICK(ka), SEL, SEL, TICK(h), SEL, SEL])
+                add('pair_openconfirm_silence', cfg, [ARR(OPEN(rh)), SEL, TICK(max(h, 1) - 1), SEL, TICK(1), SEL, SEL])
+                add('pair_update_sent', cfg, [ARR(OPEN(rh), KA), SEL, TICK(1), ('pending',), SEL, TICK(max(ka, 1) - 1), SEL, TICK(1), SEL, SEL])
+                add('pair_update_sent_openconfirm', cfg, [ARR(OPEN(rh)), SEL, TICK(1), ('pending',), SEL, ARR(KA), TICK(1), SEL, TICK(1), ('pending',), SEL])
+                # the keepalive timer fires three times in a row, each time a third of the hold time later,
+                # with a KEEPALIVE from the peer in between so that the hold timer stays ahead
+                if ka >= 1:
+                    add('keepalive_period', cfg, [ARR(OPEN(rh), KA), SEL, SEL, TICK(ka - 1), SEL, TICK(1), SEL, SEL, ARR(KA), SEL,
+                                                  TICK(ka - 1), SEL, TICK(1), SEL, ARR(KA), SEL, TICK(ka), SEL, SEL])
+        # 1b. the large hold timer of OpenSent: 239 / 240 / 241 s, with and without an OPEN waiting in the socket
+        for lh in (0, 3, 90):
+            for role in (A, Pv):
+                cfg = self.base(lh, role)
+                add('opensent_240', cfg, [TICK(239), SEL, TICK(1), SEL, SEL, TICK(1), SEL])
+                add('opensent_240', cfg, [TICK(239), ARR(OPEN(30)), SEL, TICK(1), SEL, SEL])
+                add('opensent_240', cfg, [TICK(240), ARR(OPEN(30)), SEL, SEL, SEL])
+                add('opensent_240', cfg, [TICK(241), ARR(OPEN(30), KA), SEL, SEL])
+                add('opensent_240', cfg, [TICK(239), ARR(OPEN(0)), SEL, TICK(2), SEL, ARR(KA), SEL, TICK(1000), SEL, SEL])
+        # 2. "... and by nothing else" (kept from the lead's round): ROUTE-REFRESH, sends, events of the other connection
         REFRESH = ('refresh', IPV4)
         for lh in (3, 9, 90, 65535):
             for rh in (3, 9, 90):
@@ -173,15 +191,74 @@ class Prop:
                             rest = h - d1
                             for mid in ([ARR(REFRESH)], [ARR(REFRESH, REFRESH)], [('pending',)], [('other', ('recv', KA))],
                                         [ARR(REFRESH), SEL, ('pending',)]):
-                                add(cfg, [ARR(OPEN(rh), KA), SEL, TICK(d1)] + mid + [SEL, SEL, TICK(max(rest, 1) - 1), SEL, SEL, TICK(1), SEL, SEL])
-        nrand = 2500 if tier == 'quick' else 30000
+                                add('nothing_else_rearms_hold', cfg,
+                                    [ARR(OPEN(rh), KA), SEL, TICK(d1)] + mid + [SEL, SEL, TICK(max(rest, 1) - 1), SEL, SEL, TICK(1), SEL, SEL])
+        # 3. every message type in every state of the connection, part-way through the hold interval, for its
+        # effect on BOTH timers; then silence to the deadline that must be in force afterwards
+        MP4 = [('mp', IPV4)]
+        msgs = [('open', ('msg', OPEN(30, caps=MP4))), ('ka', ('msg', KA)), ('update', ('msg', UPD)), ('notif', ('msg', NOTIF(6, 2))),
+                ('refresh', ('msg', REFRESH)), ('loop', ('loop',)), ('badhold1', ('bad', 2, 6, 1)), ('badhold2', ('bad', 2, 6, 2)),
+                ('badtype', ('bad', 1, 3, 0))]
+        for lh, rh in ((90, 30), (30, 90), (90, 0), (0, 30), (4, 90)):
+            h = min(lh, rh)
+            for role in (A, Pv):
+                cfg = self.base(lh, role, lcap=MP4)
+                pre = {'opensent': [],
+                       'openconfirm': [ARR(OPEN(rh, caps=MP4)), SEL, SEL],
+                       'established': [ARR(OPEN(rh, caps=MP4), KA), SEL, SEL, SEL],
+                       'down': [ARR(OPEN(rh, caps=MP4), KA, NOTIF(6, 4)), SEL, SEL]}
+                for sname, prefix in pre.items():
+                    for mname, item in msgs:
+                        if mname == 'loop' and sname in ('opensent',):
+                            continue          # an announcement parses only with the negotiated codec
+                        for d in sorted({1, max(h // 3, 1), max(h, 2) - 1}):
+                            add('msg_%s_in_%s' % (mname, sname), cfg,
+                                prefix + [TICK(d), ('arrive', [item]), SEL, SEL, TICK(max(h - d, 1) - 1), SEL, TICK(1), SEL, SEL,
+                                          TICK(h), SEL, SEL])
+        # 4. hold times that cannot be advertised: 1 and 2 (the OPEN says 0), and values beyond 16 bits
+        for lh in (1, 2, 65536, 65537, 65538, 65536 + 90):
+            for rh in (0, 3, 30):
+                for role in (A, Pv):
+                    cfg = self.base(lh, role)
+                    add('local_hold_unadvertisable', cfg, [ARR(OPEN(rh), KA), SEL, SEL, TICK(1), SEL, TICK(1), SEL, ARR(KA), SEL, TICK(1), SEL,
+                                                           TICK(30), SEL, SEL])
+        # 5. after the session went down (NOTIFICATION, expiry, close request, FIN): timers and arrivals have no effect
+        enders = {'notif': [ARR(NOTIF(6, 2)), SEL], 'expiry': [TICK(30), SEL], 'fin': [('fin',), SEL],
+                  'close_admin': [('close', ('admin',)), SEL], 'close_silent': [('close', ('silent',)), SEL],
+                  'close_send': [('close', ('send', 6, 3)), SEL], 'fsm_error': [ARR(OPEN(30)), SEL]}
+        for ename, end in enders.items():
+            for role in (A, Pv):
+                cfg = self.base(90, role)
+                for prefix in ([ARR(OPEN(30), KA), SEL, SEL], [ARR(OPEN(30)), SEL], []):
+                    add('after_down_%s' % ename, cfg, prefix + end + [TICK(10), SEL, TICK(30), SEL, ARR(KA), SEL, TICK(240), SEL, ('pending',), SEL,
+                                                                      ('close', ('admin',)), SEL])
+        # 6. close requests and FIN against due timers (biased order: close, hold, keepalive, socket)
+        for role in (A, Pv):
+            cfg = self.base(90, role)
+            est = [ARR(OPEN(30), KA), SEL, SEL]
+            for cr in (('admin',), ('silent',), ('send', 6, 7)):
+                add('select_order', cfg, est + [TICK(30), ('close', cr), ARR(KA), SEL, SEL])
+            add('select_order', cfg, est + [TICK(30), ARR(KA), SEL, SEL])            # hold before socket
+            add('select_order', cfg, est + [TICK(10), ARR(KA), SEL, SEL, SEL])        # keepalive before socket
+            add('select_order', cfg, est + [TICK(30), ('fin',), SEL, SEL])
+            add('select_order', cfg, est + [TICK(29), ('fin',), SEL, SEL])
+            add('select_order', cfg, est + [TICK(10), ('pending',), SEL, SEL, SEL])
+        # 7. the other connection of the same peer: collision resolution takes this connection's slot away
+        for role in (A, Pv):
+            for lid, rid in ((100, 300), (300, 100)):
+                cfg = self.base(90, role, lid=lid)
+                oth = [('other', ('connected', False)), ('other', ('recv', OPEN(30, rid=rid)))]
+                add('collision', cfg, [ARR(OPEN(30, rid=rid)), SEL] + oth + [SEL, TICK(30), SEL, SEL])
+                add('collision', cfg, oth + [ARR(OPEN(30, rid=rid)), SEL, SEL, TICK(30), SEL, SEL])
+                add('collision', cfg, [ARR(OPEN(30, rid=rid), KA), SEL] + oth + [SEL, TICK(29), SEL, TICK(1), SEL, SEL])
+        nrand = 2000 if tier == 'quick' else 30000
         for _ in range(nrand):
-            cases.append(self.random_case(rng))
+            c = self.random_case(rng); c['cls'] = 'random'; cases.append(c)
         return cases
 
     def random_case(self, rng):
-        lh = rng.choice([0, 3, 9, 90, 65535])
-        rh = rng.choice([0, 3, 9, 30, 65535])
+        lh = rng.choice([0, 3, 9, 90, 65535, 4, 5, 7, 1, 2])
+        rh = rng.choice([0, 3, 9, 30, 65535, 4, 5, 8])
         cfg = self.base(lh, rng.choice((A, Pv)), lcap=rng.choice(CAPSETS), exp=rng.choice([0, RASN, RASN]),
                         lid=rng.choice([100, 200, 300]))
         cfg['restarting'] = rng.random() < 0.1
@@ -213,7 +290,8 @@ class Prop:
                     elif y < 0.80: ms.append(('msg', UPD))
                     elif y < 0.88 and loop_ok and opened: ms.append(('loop',))
                     elif y < 0.92: ms.append(('msg', NOTIF(6, 2)))
-                    elif y < 0.96: ms.append(('msg', ('refresh', IPV4)))
+                    elif y < 0.95: ms.append(('msg', ('refresh', IPV4)))
+                    elif y < 0.97: ms.append(rng.choice([('bad', 2, 6, 1), ('bad', 2, 6, 2), ('bad', 1, 3, 0)]))
                     else: ms.append(('msg', OPEN(rh)))
                 evs.append(('arrive', ms))
                 if rng.random() < 0.7: evs.append(SEL)
@@ -248,6 +326,11 @@ class Prop:
     def oracle(self, c, obs):
         if obs == [-1]:
             return 'panic in the connection task'
+        # the hold time this side advertised in its OPEN, then one row per event
+        adv = obs[0][0]
+        obs = obs[1:]
+        if adv < 0:
+            return 'no OPEN was queued when the connection came up'
         me = 4 if c['role'] == A else 5
         due = lambda s: s == [2] or s == [1, 0] or s == [3]
         absd = lambda s, t: (t + s[1]) if s[0] == 1 else (t if s[0] == 2 else None)
@@ -256,6 +339,7 @@ class Prop:
         eof = False
         close_tx, close_pending, close_maybe = True, False, False
         h = None                # hold time in force, known once an OPEN has been accepted
+        send_outstanding = False  # an UPDATE is (or may be) waiting to be sent: sending it restarts the keepalive interval
         prev = obs[0]
         if c['lhold'] != 0 and prev[me] == 3 and prev[0] != [1, 240]:
             return 'start: no large hold timer while waiting for the OPEN'
@@ -265,7 +349,13 @@ class Prop:
             hold_b, ka_b, hold_a, ka_a, res = prev[0], prev[1], o[0], o[1], o[2]
             kind = e[0]
             reading = False
+            ka_fired = False
             if not live_before:
+                # the connection task has ended: nothing may happen any more
+                if (o[0], o[1], o[3]) != (prev[0], prev[1], prev[3]) and kind != 'tick':
+                    return 'step %d: the ended connection task still reacts to %s' % (k, kind)
+                if res:
+                    return 'step %d: a second Terminate from an ended connection task' % k
                 prev = o
                 continue
             if kind == 'tick':
@@ -276,6 +366,8 @@ class Prop:
                 eof = True
             elif kind == 'close':
                 if close_tx: close_tx, close_pending = False, True
+            elif kind == 'pending':
+                send_outstanding = True
             elif kind == 'other':
                 if st_before != 0 and st_after == 0: close_maybe = True
             elif kind == 'select':
@@ -288,31 +380,45 @@ class Prop:
                     # (E2) once nothing was received for the hold time the session is torn down
                     if st_before in (3, 4, 5) and not timer_res:
                         return 'step %d: hold timer due but the session was not torn down for hold-timer expiry' % k
+                    if timer_res and res[1] != [[4, 0]]:
+                        return 'step %d: hold-timer expiry without NOTIFICATION 4/0' % k
                 else:
                     # (E1) ... and only then
                     if timer_res:
                         return 'step %d: hold-timer SessionDown although the hold deadline had not been reached' % k
                     if due(ka_b):
+                        ka_fired = True
                         # (K) a keepalive timer that fires is re-armed with a third of the hold time
                         if st_before in (4, 5) and h and o[3] == 1 and ka_a != [1, h // 3]:
                             return 'step %d: keepalive timer fired and was not re-armed with hold/3 = %d: %s' % (k, h // 3, ka_a)
+                        if st_before in (4, 5) and o[3] != 1:
+                            return 'step %d: the keepalive timer ended the session' % k
                     else:
                         reading = True
             # what a reading select must have done
             rearm = False
+            opened_now = False
             if reading and queue:
                 its, queue = queue, []
-                if st_before == 3 and its[0][0] == 'msg' and its[0][1][0] == 'open' and st_after in (4, 5) :
-                    h = min(c['lhold'], its[0][1][3])
-                rearm_kinds = [i for i in its if i[0] == 'loop' or i[1][0] in ('ka', 'update', 'open')]
-                killers = [i for i in its if i[0] == 'msg' and i[1][0] in ('notif', 'refresh')]
+                if st_before == 3 and its[0][0] == 'msg' and its[0][1][0] == 'open' and st_after in (4, 5):
+                    h = min(adv, its[0][1][3])
+                    opened_now = True
+                rearm_kinds = [i for i in its if i[0] == 'loop' or (i[0] == 'msg' and i[1][0] in ('ka', 'update', 'open'))]
+                killers = [i for i in its if i[0] == 'bad' or (i[0] == 'msg' and i[1][0] in ('notif', 'refresh'))]
+                if its[0][0] == 'bad' and not (res and res[0][0] == 2 and res[0][1:] == [its[0][1], its[0][2]]):
+                    return 'step %d: a message the codec must reject (%d/%d) did not end the session with that NOTIFICATION' % (
+                        k, its[0][1], its[0][2])
                 if o[3] == 1 and st_after in (4, 5) and h is not None:
                     rearm = bool(rearm_kinds)
                     if h > 0 and rearm_kinds and not killers:
                         # (N)/(R1) every KEEPALIVE or UPDATE received re-arms the hold timer with the negotiated value
-                        last_is_plain = True
                         if hold_a != [1, h]:
                             return 'step %d: KEEPALIVE/UPDATE/OPEN received but hold timer is %s, not re-armed to %d' % (k, hold_a, h)
+                    if opened_now and h > 0 and ka_a != [1, h // 3] and not (st_after == 5 and ka_a[0] == 1 and ka_a[1] <= h // 3):
+                        return 'step %d: hold time %d negotiated but the keepalive timer is %s, not %d' % (k, h, ka_a, h // 3)
+            became_established = st_before != 5 and st_after == 5
+            if became_established:
+                send_outstanding = True       # End-of-RIB markers are queued when the session comes up
             # (R2) ... and nothing else does
             if o[3] == 1 and st_before in (4, 5) and st_after in (4, 5) and h:
                 # an overdue timer's deadline is only known to lie in the past
@@ -320,6 +426,18 @@ class Prop:
                 da = absd(hold_a, t) if hold_a[0] == 1 else None
                 if db is not None and da is not None and da > db and not rearm:
                     return 'step %d: hold deadline moved from %d to %d by %s, not by a received KEEPALIVE/UPDATE' % (k, db, da, kind)
+                # (R3) the keepalive deadline: set by the OPEN exchange, restarted when the timer fires or an UPDATE is sent
+                kb = absd(ka_b, t - (e[1] if kind == 'tick' else 0))
+                kaa = absd(ka_a, t) if ka_a[0] == 1 else None
+                if kb is not None and kaa is not None and kaa > kb and not ka_fired and not opened_now:
+                    if kind == 'select' and st_after == 5 and send_outstanding and ka_a == [1, h // 3]:
+                        send_outstanding = False
+                    else:
+                        return 'step %d: keepalive deadline moved from %d to %d by %s (not the timer firing, not an UPDATE sent)' % (k, kb, kaa, kind)
+            # what was waiting to be sent goes out in the first iteration that reaches the socket
+            if kind == 'select' and (reading or (not ka_fired and not due(hold_b) and not close_pending and not close_maybe)) \
+                    and not became_established:
+                send_outstanding = False
             # timers that must (not) be running
             if o[3] == 1 and st_after in (4, 5) and h is not None:
                 if h == 0:
@@ -331,6 +449,8 @@ class Prop:
                         return 'step %d: hold time %d in force but hold timer is %s' % (k, h, hold_a)
                     if ka_a[0] not in (1, 2) or (ka_a[0] == 1 and ka_a[1] > h // 3):
                         return 'step %d: keepalive interval %d in force but keepalive timer is %s' % (k, h // 3, ka_a)
+            if o[3] == 1 and st_after == 3 and (ka_a != [0] or (kind != 'tick' and hold_a != hold_b)):
+                return 'step %d: a timer changed while still waiting for the OPEN (hold %s, keepalive %s)' % (k, hold_a, ka_a)
             if bool(res) and res[0] == [0] and h == 0 and st_before in (4, 5):
                 return 'step %d: hold-timer SessionDown with negotiated hold time 0' % k
             prev = o
@@ -342,14 +462,17 @@ class Prop:
     def nontrivial_key(self, c, obs):
         if obs == [-1]:
             return ('panic',)
+        obs = obs[1:]
         traj = tuple((tuple(o[0]), tuple(o[1]), json.dumps(o[2]), o[4], o[5]) for o in obs)
         if any(o[0][0] in (1, 2, 3) or o[1][0] in (1, 2, 3) for o in obs):
             return (c['lhold'], c['role'], traj)
         return None
 
     def classify(self, c, obs):
-        tags = ['lhold_%d' % c['lhold']]
+        tags = ['lhold_%d' % c['lhold'], 'class_%s' % c.get('cls', 'corpus')]
         if obs != [-1]:
+            obs = obs[1:]
             if any(o[2] and o[2][0] == [0] for o in obs): tags.append('hold_timer_session_down')
             if any(o[4] == 5 or o[5] == 5 for o in obs): tags.append('reaches_established')
+            if any(o[0] == [3] or o[0] == [4] or o[1] == [3] or o[1] == [4] for o in obs): tags.append('timer_fired_into_empty_slot')
         return tags
